@@ -136,6 +136,21 @@ Proof.
   exists fi, f, vi, v, ch. exact R.
 Qed.
 
+(* for a single open file this is PrFileSeq's invariant *)
+Lemma files_inv_single fsz s h w af : files_inv fsz s [(h, w, af)] <-> file_inv fsz w h s af.
+Proof.
+  split.
+  - intros H. apply (files_inv_member fsz s _ h w af H). left. reflexivity.
+  - intros (fi & f & vi & v & ch & R). exists vi, v, [(fi, f, ch)]. split; [|split].
+    + constructor; [exact R|constructor].
+    + intros i j a b Hij Ha Hb. exfalso.
+      destruct i as [|i]; destruct j as [|j]; try contradiction; cbn [nth_error] in Ha, Hb.
+      * destruct j; discriminate Hb.
+      * destruct i; discriminate Ha.
+      * destruct i; discriminate Ha.
+    + cbn. constructor; [intros []|constructor].
+Qed.
+
 (* replacing the abstract state of the member with handle h *)
 Definition upd_member (h : N) (af1 : afile) (m : list member) : list member :=
   map (fun x => if m_handle x =? h then (fst x, af1) else x) m.
@@ -636,6 +651,15 @@ Fixpoint sel (h : N) (ops : list (N * aop)) (os : list (outcome res)) : list (ou
   | _, _ => []
   end.
 
+(* ... decided by computation *)
+Lemma on_members_dec m ops :
+  forallb (fun p => existsb (N.eqb (fst p)) (map m_handle m)) ops = true -> on_members m ops.
+Proof.
+  intros H. apply Forall_forall. intros p Hp. rewrite forallb_forall in H.
+  apply H in Hp. apply existsb_exists in Hp. destruct Hp as (x & Hx & E).
+  apply N.eqb_eq in E. rewrite E. exact Hx.
+Qed.
+
 Lemma m_find_member h m : In h (map m_handle m) ->
   exists w af, m_find h m = Some (h, w, af) /\ In (h, w, af) m.
 Proof.
@@ -869,7 +893,9 @@ Example multi_example :
   (let d := s_disk (snd (mrun exm_ops exm_state)) in
    chain_of d exd_vol 2 9 = Some [2; 3; 5] /\ chain_of d exd_vol 4 9 = Some [4; 6]).
 Proof.
-  split; [|split; [|repeat split; vm_compute; reflexivity]].
+  split; [|split; [|split; [vm_compute; reflexivity|split; [vm_compute; reflexivity|
+    split; [vm_compute; reflexivity|split; [vm_compute; reflexivity|split; [vm_compute; reflexivity|
+    split; [vm_compute; reflexivity|cbv zeta; split; vm_compute; reflexivity]]]]]]]].
   - exists 0%nat, exd_vol, [(0%nat, exr_file, [2; 3]); (1%nat, exm_file2, [])].
     split; [|split].
     + constructor; [|constructor; [|constructor]]; unfold member_rep; cbn [m_wr m_handle m_af r_chain fst snd].
@@ -887,10 +913,10 @@ Proof.
         try contradiction; try (destruct i; discriminate Ha); try (destruct j; discriminate Hb);
         injection Ha as <-; injection Hb as <-; intros y Hy Hy'; cbn in Hy, Hy'; tauto.
     + cbn. repeat constructor; cbn; intuition discriminate.
-  - unfold on_members, exm_ops, exm_members. cbn [map m_handle fst].
-    repeat constructor; cbn [fst In]; tauto.
+  - apply on_members_dec. vm_compute. reflexivity.
 Qed.
 
+Print Assumptions files_inv_single.
 Print Assumptions file_rep_rebook.
 Print Assumptions other_rep_kept.
 Print Assumptions rep_step.
